@@ -28,7 +28,7 @@ RULE = ("one run = one input hypergraph and one parameter set; the chain is exec
         "stream (prefix replay; the draw traces must be prefix-ordered) and the degree/size invariants are checked on every prefix; "
         "directed runs call the model once per seed variant.  Non-trivial: >= 1 prefix whose output differs from the input and "
         ">= 1 adversarial draw or coincidence; distinct = distinct draw-trace digests.")
-TIERS = {"quick": {"runs": 1600, "wall_cap": 240, "det_seeds": 10, "min_tests": 300},
+TIERS = {"quick": {"runs": 8000, "wall_cap": 240, "det_seeds": 10, "min_tests": 300},
          "thorough": {"runs": 40000, "wall_cap": 3000, "det_seeds": 30, "min_tests": 1000}}
 
 
@@ -249,3 +249,8 @@ def simplify(case):
             c2 = json.loads(json.dumps(c))
             del c2["spec"]["edges"][i]
             yield c2
+
+
+def sim_time(stats):
+    return {"unit": "chain prefixes executed (each prefix k re-runs k MCMC steps) + directed model calls",
+            "value": stats.get("c13", {}).get("prefixes", 0) + stats.get("c13", {}).get("directed_calls", 0)}
